@@ -13,10 +13,11 @@ RULE = ("stream aggstore, two parts. sequential: seeded histories against Aggreg
 
 
 def private_kmodel(ctx):
-    """Other checks relink lean/.lake/build/bin/kmodel while this one runs: work on a copy taken under the lake lock."""
-    dst = ctx.work / "kmodel"
+    """The driver of this stream is also linked stand-alone (lean_exe `kagg`, same code as `kmodel aggstore`) so that the
+    check does not depend on every other stream's driver building; work on a copy taken under the lake lock."""
+    dst = ctx.work / "kagg"
     with vlib.Lock("lake"):
-        shutil.copy2(vlib.KMODEL, dst)
+        shutil.copy2(vlib.LEAN / ".lake/build/bin/kagg", dst)
     vlib.KMODEL = dst
 
 
@@ -29,7 +30,7 @@ def sig(case, idx, verdict):
 
 
 def check(ctx):
-    vlib.prove(ctx, ["KrillModel.Props.C07"])
+    vlib.prove(ctx, ["KrillModel.Props.C07"], extra_targets=("kagg",))
     found = False
     private_kmodel(ctx)
     if vlib.build_harness(ctx, ["aggstore"]):
@@ -57,7 +58,7 @@ def check(ctx):
 
 def replay(ctx, data):
     vlib.build_harness(ctx, ["aggstore"])
-    vlib.prove(ctx, ["KrillModel.Props.C07"])
+    vlib.prove(ctx, ["KrillModel.Props.C07"], extra_targets=("kagg",))
     c = vlib.exec_ops(ctx, data.get("harness", "aggstore"), data.get("stream", "aggstore C07"), data.get("case", "replay"),
                       data["ops"], "replay")
     for t, v in c["ops"]:
